@@ -1,6 +1,6 @@
 (* C05 — Fills never breach the order's limit; fill-or-kill is all-or-nothing.  Statements only. *)
 From Coq Require Import ZArith List Bool.
-From V Require Import Model.Num Model.Status Model.Sim Proofs.SimPlaceP Proofs.SimPlaceP2.
+From V Require Import Model.Num Model.Status Model.Sim Model.SimLoop Model.SimGuard Model.Examples Proofs.SimPlaceP Proofs.SimPlaceP2 Proofs.SimRunP Proofs.SimLimitRunP.
 Open Scope Z_scope.
 
 (* an ordinary limit order on arrival: the new fragments are a prefix of the opposing ladder, all at the
@@ -64,6 +64,40 @@ Definition ex_book : book :=
   {| b_pt := 5; b_status := MOpen; b_version := 1; b_inplay := false; b_bsp_rec := false; b_delay := 0;
      b_runners := [{| r_sel := 1; r_status := RActive; r_adj := None; r_atb := [(30000, 200); (25000, 500); (20000, 1000)];
                       r_atl := [(31000, 300)]; r_trd := []; r_sp := None |}] |}.
+(* ===================== whole runs ===================== *)
+(* placement of an order that has no fragments yet: on EVERY path of SimulatedOrder.place (market not open, stale version, removed runner,
+   best-price execution off, match on arrival down the ladder, rest in the queue, full-match clients) an ordinary limit order only receives
+   fragments at its limit or better; a fill-or-kill order is outside (bounded on its average: C05_fok_vwap) *)
+Theorem C05_placement_respects_limit_on_every_path : forall tb c ms b mv o, so_frags o = [] -> limI (fst (sim_place tb c ms b mv o)).
+Proof. exact sim_place_limI. Qed.
+Print Assumptions C05_placement_respects_limit_on_every_path.
+
+(* WHOLE RUNS (same hypotheses as C04_run_conserves: books without removed runners and reconciled starting prices, every placement package
+   finds its order as created - booleans evaluated by the harness on every scenario): after every prefix of the run, every fragment of every
+   ordinary limit order of every market - matched on arrival, passively from traded volume at any later update, by a full-match client,
+   on a replacement order - is at the order's limit price or better *)
+Theorem C05_run_respects_limits : forall tb cf n sc es s m o f,
+  (forall m0, In m0 (s_markets s) -> mk_orders m0 = []) ->
+  forallb (event_b sc n) es = true -> run_guard_b tb cf n sc es s = true ->
+  In m (s_markets (fold_left (step tb cf n sc) es s)) -> In o (mk_orders m) -> so_type o = TLimit -> so_fok o = false -> In f (so_frags o) ->
+  match so_side o with Back => so_price o <= f_price f | Lay => f_price f <= so_price o end.
+Proof. exact run_respects_limits. Qed.
+Print Assumptions C05_run_respects_limits.
+
+(* non-vacuity: a run satisfying both boolean hypotheses in which a BACK order at 2.00 is matched on arrival at 2.00 and later passively at 2.00 *)
+Definition c05_bk (pt : Z) (trd : list (Z * Z)) : book :=
+  xbook pt MOpen 1 [xrunner 1 RActive None [(20000, 300)] [(21000, 500)] trd; xrunner 2 RActive None [(30000, 500)] [(32000, 500)] []].
+Definition c05_script : script := script_of [(0, 1, 0, [APlace 1 1 Back (OLimit 20000 1000 PLapse false None) None])].
+Definition c05_events : list event :=
+  [{| ev_market := 1; ev_idx := 0; ev_book := c05_bk 1000 [] |}; {| ev_market := 1; ev_idx := 1; ev_book := c05_bk 1200 [] |};
+   {| ev_market := 1; ev_idx := 2; ev_book := c05_bk 1400 [(20000, 300)] |}; {| ev_market := 1; ev_idx := 3; ev_book := c05_bk 1800 [(20000, 900)] |}].
+Example C05_run_respects_limits_example :
+  forallb (event_b c05_script 1) c05_events = true /\
+  run_guard_b tb_up std_cfg 1 c05_script c05_events (sim0 [mkmarket 1 std_static]) = true /\
+  map (fun m => map (fun o => (so_price o, map f_price (so_frags o))) (mk_orders m))
+      (s_markets (fold_left (step tb_up std_cfg 1 c05_script) c05_events (sim0 [mkmarket 1 std_static]))) = [[(20000, [20000; 20000; 20000])]].
+Proof. vm_compute. repeat split; reflexivity. Qed.
+
 Example C05_nonvacuous :
   let c := {| c_bpe := true; c_full := false; c_min_bsp := 1000 |} in
   let ms := {| ms_bsp := true; ms_persist := true; ms_type := MWin |} in
